@@ -3,6 +3,9 @@ CONSTANTS MaxCalls = 3  Emit = TRUE
 CONSTANT KeyFn <- MemoKey
 CONSTANT CatFn <- MemoCat
 CONSTANT RepoFn <- MemoRepo
+CONSTANT Cat <- ByteCat
+CONSTANT Size <- ByteSize
+CONSTANT Lit <- ByteLit
 VIEW view
 CHECK_DEADLOCK FALSE
 INVARIANT EmitHistory
